@@ -1,7 +1,7 @@
 (* The documented conditions of the message-level tags (data/tags descriptions, property C16),
    as declarative predicates over the abstract catalog.  Written from the documentation; the only
    things shared with the model are the catalog datatype and the string constants. *)
-From Coq Require Import List NArith Bool.
+From Coq Require Import List NArith ZArith Bool.
 From I18n Require Import Model.Messages.
 Import ListNotations.
 Local Open Scope N_scope.
@@ -53,3 +53,107 @@ Definition unusual_at (isword : N -> bool) (s : list N) (k : nat) (c : N) : Prop
 Definition prefix_of (tp : ftp) : list N :=
   match tp with TpPos => [] | TpNo => s_no | TpPossible => s_possible | TpImpossible => s_impossible end.
 Definition format_flag (tp : ftp) (name : list N) : list N := prefix_of tp ++ name ++ s_format.
+
+(* ------------------------------------------------------------------ *)
+(* lines: the text between newlines ("^" / "$" of a MULTILINE regex)    *)
+Fixpoint join_lines (ls : list (list N)) : list N :=
+  match ls with
+  | [] => []
+  | [l] => l
+  | l :: r => l ++ 10 :: join_lines r
+  end.
+(* ls is the division of s into lines *)
+Definition lines_of (s : list N) (ls : list (list N)) : Prop :=
+  ls <> [] /\ Forall (fun l => ~ In 10 l) ls /\ join_lines ls = s.
+(* m is the first line of s that is a conflict marker *)
+Definition first_marker_line (s m : list N) : Prop :=
+  exists ls pre post, lines_of s ls /\ ls = pre ++ m :: post /\ marker_line m /\ Forall (fun l => ~ marker_line l) pre.
+
+(* the translations in the order they are examined: msgstr, then msgstr[0], msgstr[1], ... *)
+Definition translation_list (e : msg_entry) : list (list N) :=
+  (match me_msgstr e with [] => [] | _ => [me_msgstr e] end)
+  ++ (if existsb (fun s => match s with [] => false | _ => true end) (me_msgstr_plural e) then me_msgstr_plural e else []).
+
+(* ------------------------------------------------------------------ *)
+(* the po4a comment "type: Content of: <a><b>..." : one or more XML names in angle brackets
+   (https://www.w3.org/TR/REC-xml/#NT-NameStartChar) *)
+Definition xml_name_start (c : N) : Prop :=
+  c = 58 \/ (65 <= c /\ c <= 90) \/ c = 95 \/ (97 <= c /\ c <= 122)
+  \/ (192 <= c /\ c <= 214) \/ (216 <= c /\ c <= 246) \/ (248 <= c /\ c <= 767) \/ (880 <= c /\ c <= 893)
+  \/ (895 <= c /\ c <= 8191) \/ (8204 <= c /\ c <= 8205) \/ (8304 <= c /\ c <= 8591) \/ (11264 <= c /\ c <= 12271)
+  \/ (12289 <= c /\ c <= 55295) \/ (63744 <= c /\ c <= 64975) \/ (65008 <= c /\ c <= 65533) \/ (65536 <= c /\ c <= 983039).
+Definition xml_name_char (c : N) : Prop :=
+  xml_name_start c \/ c = 45 \/ c = 46 \/ (48 <= c /\ c <= 57) \/ c = 183 \/ (768 <= c /\ c <= 879) \/ c = 8255 \/ c = 8256.
+Definition xml_name (n : list N) : Prop := exists c r, n = c :: r /\ xml_name_start c /\ Forall xml_name_char r.
+Definition element_path (names : list (list N)) : list N := flat_map (fun n => 60 :: n ++ [62]) names.
+Definition xml_trigger_comment (s : list N) : Prop :=
+  exists names, names <> [] /\ Forall xml_name names /\ s = s_xml_trigger ++ element_path names.
+
+(* ------------------------------------------------------------------ *)
+(* unusual-character-in-translation: a character of a translation is reported unless msgid / msgid_plural
+   contain it as an unusual character too ("explained"), and only where it is seen first *)
+Definition explained (isword : N -> bool) (e : msg_entry) (c : N) : Prop :=
+  (exists k, unusual_at isword (me_msgid e) k c) \/ (exists p k, me_plural e = Some p /\ unusual_at isword p k c).
+(* c is an unexplained unusual character of the t-th translation of the j-th entry of the file *)
+Definition unexplained_at (isword : N -> bool) (cat : list msg_entry) (j t : nat) (c : N) : Prop :=
+  exists e s, nth_error cat j = Some e /\ message e /\ nth_error (translation_list e) t = Some s
+    /\ (exists k, unusual_at isword s k c) /\ ~ explained isword e c.
+Definition first_unexplained_at (isword : N -> bool) (cat : list msg_entry) (j t : nat) (c : N) : Prop :=
+  unexplained_at isword cat j t c
+  /\ forall j' t', (j' < j \/ (j' = j /\ t' < t))%nat -> ~ unexplained_at isword cat j' t' c.
+Definition unexplained_in (isword : N -> bool) (e : msg_entry) (c : N) : Prop :=
+  exists s, translation e s /\ (exists k, unusual_at isword s k c) /\ ~ explained isword e c.
+
+(* ------------------------------------------------------------------ *)
+(* flags (gettext manual, PO Files; data/tags)                          *)
+
+(* <family><name>-format for a name of data/string-formats *)
+Definition is_format_flag (names : list (list N)) (f : list N) : Prop :=
+  exists tp name, In name names /\ f = format_flag tp name.
+(* range:<min>..<max>, blanks allowed around the numbers *)
+Definition blank (c : N) : Prop := c = 32 \/ c = 9 \/ c = 13 \/ c = 12 \/ c = 11.
+Definition digit (c : N) : Prop := 48 <= c /\ c <= 57.
+Definition decimal (ds : list N) : Z := fold_left (fun acc c => (acc * 10 + Z.of_N (c - 48))%Z) ds 0%Z.
+Definition range_syntax (f d1 d2 : list N) : Prop :=
+  exists l r, f = s_range ++ l ++ d1 ++ [46; 46] ++ d2 ++ r /\ Forall blank l /\ Forall blank r
+    /\ d1 <> [] /\ d2 <> [] /\ Forall digit d1 /\ Forall digit d2.
+(* "the designated range contains at least two numbers" *)
+Definition valid_range (f : list N) (i j : Z) : Prop :=
+  exists d1 d2, range_syntax f d1 d2 /\ i = decimal d1 /\ j = decimal d2 /\ (i < j)%Z.
+Definition is_range_flag (f : list N) : Prop := exists r, f = s_range ++ r.
+Definition known_flag (names : list (list N)) (f : list N) : Prop :=
+  f = s_fuzzy \/ f = s_wrap \/ f = s_no_wrap \/ f = s_markdown \/ is_range_flag f \/ is_format_flag names f.
+
+(* a flag list that breaks none of the flag rules (data/tags: unknown-, duplicate-, conflicting-, redundant-message-flag,
+   invalid-range-flag, range-flag-without-plural-string).  [compatible] : the example sets of two formats intersect *)
+Definition bad_pair (tp1 tp2 : ftp) : Prop :=
+  (tp1 = TpPos /\ tp2 = TpNo) \/ (tp1 = TpPos /\ tp2 = TpImpossible) \/ (tp1 = TpPossible /\ tp2 = TpImpossible)
+  \/ (tp1 = TpPos /\ tp2 = TpPossible).
+Definition flags_clean (tbl : list (list N * list (list N))) (has_plural : bool) (F : list (list N)) : Prop :=
+  NoDup F
+  /\ (forall f, In f F -> known_flag (map fst tbl) f)
+  /\ (forall f, In f F -> is_range_flag f -> has_plural = true /\ exists i j, valid_range f i j)
+  /\ (forall f g, In f F -> In g F -> is_range_flag f -> is_range_flag g -> f = g)
+  /\ ~ (In s_wrap F /\ In s_no_wrap F)
+  /\ (forall n1 n2, In n1 (map fst tbl) -> In n2 (map fst tbl) -> n1 <> n2 ->
+        In (format_flag TpPos n1) F -> In (format_flag TpPos n2) F -> compatible tbl n1 n2 = true)
+  /\ (forall name tp1 tp2, In name (map fst tbl) -> bad_pair tp1 tp2 ->
+        ~ (In (format_flag tp1 name) F /\ In (format_flag tp2 name) F)).
+
+(* ------------------------------------------------------------------ *)
+(* a catalog that violates none of the documented rules (cfg: file kind, known encoding, string-format table, oracles) *)
+Definition clean_message (cfg : config) (cat : list msg_entry) (j : nat) (e : msg_entry) : Prop :=
+  earlier_definitions cat j e <> 1%nat
+  /\ (c_template cfg = true -> ~ translated e)
+  /\ (me_previous e = true -> fuzzy e)
+  /\ (forall s, considered e s -> (leading_nl s <-> leading_nl (me_msgid e)) /\ (trailing_nl s <-> trailing_nl (me_msgid e)))
+  /\ (~ fuzzy e -> ~ partially_translated e)
+  /\ (~ fuzzy e -> forall s m, translation e s -> ~ first_marker_line s m)
+  /\ (c_encoding cfg = true -> forall s c, translation e s -> (exists k, unusual_at (c_isword cfg) s k c) -> explained (c_isword cfg) e c)
+  /\ flags_clean (c_formats cfg) (match me_plural e with Some _ => true | None => false end) (me_flags e)
+  /\ (c_encoding cfg = true -> xml_trigger_comment (me_comment e) ->
+        (c_template cfg = true -> c_xml cfg (me_msgid e) = None)
+        /\ (~ fuzzy e -> me_msgstr e <> [] -> c_xml cfg (me_msgid e) = None -> c_xml cfg (me_msgstr e) = None)).
+Definition clean_catalog_decl (cfg : config) (cat : list msg_entry) : Prop :=
+  ((exists e, In e cat /\ message e) \/ (c_binary cfg = true /\ c_hidden cfg = true))
+  /\ forall j e, nth_error cat j = Some e -> message e -> clean_message cfg cat j e.
